@@ -15,6 +15,7 @@ CONSTANTS MetricDefs,  \* sequence of [id, ns, grp, fkl]
           WWs,         \* whale weights
           MWs, NWs, GWs, \* effective weights of metrics, namespaces, groups
           Buds,        \* fixed per-metric budgets (0 = none)
+          BudAllowed,  \* metrics that may have a fixed budget (the others always have 0)
           NSAs,        \* noSampleAgent values
           OptSets,     \* option records
           Budgets      \* budgets given to Run
@@ -54,6 +55,7 @@ MCView == <<input, phase, nadd, out, ro, plan, todo, gen>>
 
 MCInit ==
   \E mw \in [MIds -> MWs], bud \in [MIds -> Buds], nsa \in [MIds -> NSAs] :
+  (\A m \in MIds \ BudAllowed : bud[m] = 0) /\
   \E nw \in [NsIds -> NWs], gw \in [GrpIds -> GWs] :
   \E o \in OptSets, b \in Budgets :
      /\ OptRelevant(o, nsa)
@@ -93,9 +95,20 @@ MCNextFast == MCSlot \/ MCNew \/ (NextFast /\ UNCHANGED gen)
 (* Export for the S->I replay: one line per final state (input + what the model fixes). *)
 LeafRec(L) == [items |-> L.items, b |-> L.b, d |-> L.d, size |-> L.size, fn |-> LeafFn(L), fd |-> LeafFd(L),
                pos |-> WhalePos(L), uniform |-> UniformLeaf(L), unitclamp |-> ~NoUnitClamp(L), single |-> LeafSingle(L)]
+\* Rows the PROPERTY obliges to be kept with factor 1, computed from the node records with MustFit (the
+\* least fixpoint of "fits its weight-proportional share of what the kept siblings left"), i.e. without
+\* the running (budget, sumWeight) bookkeeping of the transcribed loops; plus fixed-budget metrics within
+\* their budget and noSampleAgent rows.  (FairShareRemaining / FitIsJustified state that the mechanism's
+\* keep records coincide with it.)
+MustRows ==
+  UNION {UNION {c.items : c \in {c \in n.kids :
+                   \/ (~c.fixed /\ c.id \in MustFit({k \in n.kids : ~k.fixed}, n.B, n.W))
+                   \/ (c.fixed /\ c.size <= c.b)}} : n \in Nodes(plan)}
+  \cup UNION {x.items : x \in {y \in Keeps(plan) : y.why = "nsa"}}
+MustMatchesMechanism == Done => MustRows = UNION {x.items : x \in Keeps(plan)}
 ExportRec ==
   [input |-> input, rmode |-> RoundMode, smode |-> IF IsDet THEN "det" ELSE SelectMode,
-   must |-> UNION {x.items : x \in Keeps(plan)},
+   must |-> MustRows,
    nsakeep |-> UNION {x.items : x \in {y \in Keeps(plan) : y.why = "nsa"}},
    leaves |-> {LeafRec(L) : L \in Leaves(plan)},
    forced |-> Forced,
@@ -155,6 +168,15 @@ BudSlots5 == <<SD(1, <<>>), SD(1, <<>>), SDn(2, <<>>), SD(3, <<>>), SD(3, <<>>)>
 OptsBud == {O(F, F, F, T, F, F, F, F), O(F, F, F, T, T, F, F, F), O(F, F, F, F, T, F, F, F)}
 AgentMetrics == <<MD(1, 1, 0, 0), MD(2, 2, 0, 0)>>
 AgentSlots == <<SD(1, <<>>), SD(1, <<>>), SDn(2, <<>>), SD(2, <<>>)>>
+\* fixfirst: an over-budget fixed-budget metric (metric 1) that can sort before >= 2 regular siblings whose
+\* sizes / weights sit around the share boundary (3 regular metrics, equal and unequal weights)
+FixMetrics == <<MD(1, 0, 0, 0), MD(2, 0, 0, 0), MD(3, 0, 0, 0), MD(4, 0, 0, 0)>>
+FixSlots == <<SD(1, <<>>), SD(2, <<>>), SD(2, <<>>), SD(3, <<>>), SD(4, <<>>)>>
+FixSlotsBig == <<SD(1, <<>>), SD(2, <<>>), SD(2, <<>>), SD(3, <<>>), SD(3, <<>>), SD(4, <<>>)>>
+Sz34 == {-1, 3, 4}
+Sz345 == {-1, 3, 4, 5}
+OnlyMetric1 == {1}
+AllMetrics == MIds
 OptsBud2 == {O(F, F, F, T, F, F, F, F), O(F, F, F, F, T, F, F, F)}
 OptsBudOnly == {O(F, F, F, T, F, F, F, F)}
 OptsAgent3 == {O(T, F, F, T, F, F, F, F), O(T, T, F, F, F, F, F, F), O(T, F, T, F, T, F, F, F)}
